@@ -27,6 +27,11 @@ ObjOfJson(o) == Obj(o.blocks, o.sym = 1, LabelsOfJson(o.st), RelOfJson(o.st), o.
 SpanOK(sp, len) == 0 <= sp[1] /\ sp[1] <= sp[2] /\ sp[2] <= len
 SubBytes(src, sp) == SubSeq(src, sp[1] + 1, sp[2])
 
+\* a statement without its spans: what was written (the generator's intent has this shape)
+Bare(st) == [labels |-> [i \in 1..Len(st.labels) |-> st.labels[i].name],
+             n |-> [k |-> st.n.k, a |-> st.n.a, b |-> st.n.b, c |-> st.n.c, m |-> st.n.m, lbl |-> st.n.lbl, str |-> st.n.str]]
+BareSeq(ss) == [i \in 1..Len(ss) |-> Bare(ss[i])]
+
 ---------------------------------------------------------------------------
 \* Asm records.
 AsmWhy(r) ==
@@ -53,6 +58,9 @@ AsmWhy(r) ==
   \cup (IF r.parse = "ok" /\ r.panic = 0 /\ ((wf /\ ~ok) \/ (ok /\ ~wfhi)) THEN {"accept"} ELSE {})
   \cup (IF r.parse = "ok" /\ r.panic = 0 /\ ~ok /\ ~wf /\ r.res \notin ViolatedKindsI(prog, X, D) THEN {"kind"} ELSE {})
   \cup (IF r.parse = "ok" /\ r.panic = 0 /\ ~ok /\ wf THEN {"wf-rejected"} ELSE {})
+     \* ---- C01: the statements read are the statements written (generated programs carry the generator's
+     \*      intent), so the image below is the encoding of the source text and not only of the parser's output
+  \cup (IF "gen" \in DOMAIN r /\ r.parse = "ok" /\ BareSeq(prog) # r.gen THEN {"written"} ELSE {})
      \* ---- C01: the image, nothing else, and the labels
   \cup (IF ok /\ wfhi /\ ImageOfBlocks(o.blocks) # ImageSpecI(prog, X, D) THEN {"image"} ELSE {})
   \cup (IF p1ok /\ wf /\ LabelAddrsOfObj(stl) # LSpec THEN {"labels"} ELSE {})
